@@ -76,6 +76,25 @@ class ensure_ast""")]),
          edits=[dict(file=MATCH, old="""                        is_match = (type(inssub_value) is type(stdsub_value) and
                                     inssub_value == stdsub_value)""",
                      new="""                        is_match = (type(inssub_value), inssub_value) == (type(stdsub_value), stdsub_value)""")]),
+    dict(name='revert-fix-steal-only-matching-text', kind='mutant', rule='R8', key='reparse_if_needed[verify(OTHER),None',
+         edits=[dict(file='pedal/cait/cait_api.py',
+                     old="    if (use_source_tool and report[SOURCE_TOOL_NAME]['success']\n            and report[SOURCE_TOOL_NAME].get('ast_source') == student_code):",
+                     new="    if use_source_tool and report[SOURCE_TOOL_NAME]['success']:")]),
+    dict(name='verify-forgets-which-text-it-parsed', kind='mutant', rule='R8', key='reparse_if_needed[',
+         edits=[dict(file='pedal/source/source.py', old="    report[TOOL_NAME]['ast_source'] = code\n", new="    report[TOOL_NAME]['ast_source'] = report.submission.main_code\n")]),
+    dict(name='tree-memoised-by-file-name', kind='mutant', rule='R8', key='replace(MAIN2)',
+         edits=[dict(file='pedal/cait/cait_api.py', old="    # Have we already parsed this code?\n    if student_code in cait['cache']:",
+                     new="    # Have we already parsed this code?\n    if use_source_tool and report.submission.main_file in cait['cache']:\n        student_code = report.submission.main_file\n    if student_code in cait['cache']:"),
+                dict(file='pedal/cait/cait_api.py', old="    cait['ast'] = cait['cache'][student_code] = CaitNode(student_ast, report=report)\n    return cait",
+                     new="    cait['ast'] = cait['cache'][student_code] = CaitNode(student_ast, report=report)\n    if use_source_tool:\n        cait['cache'][report.submission.main_file] = cait['ast']\n    return cait")]),
+    dict(name='twin-never-steal-always-parse', kind='twin',
+         edits=[dict(file='pedal/cait/cait_api.py',
+                     old="    if (use_source_tool and report[SOURCE_TOOL_NAME]['success']\n            and report[SOURCE_TOOL_NAME].get('ast_source') == student_code):",
+                     new="    if False:")]),
+    dict(name='twin-steal-for-explicit-code-of-the-same-text', kind='twin',
+         edits=[dict(file='pedal/cait/cait_api.py',
+                     old="    if (use_source_tool and report[SOURCE_TOOL_NAME]['success']\n            and report[SOURCE_TOOL_NAME].get('ast_source') == student_code):",
+                     new="    if report[SOURCE_TOOL_NAME]['success'] and report[SOURCE_TOOL_NAME].get('ast_source') == student_code:")]),
     dict(name='twin-threshold-rewritten', kind='twin',
          edits=[dict(file=STATIC, old='if at_least > use_count:', new='if use_count < at_least:')]),
     dict(name='twin-prevent-threshold-rewritten', kind='twin',
